@@ -48,11 +48,16 @@ Proof.
     apply (IH s1 s'); auto; [apply P | eapply Hstep; eauto].
 Qed.
 
-Lemma run_M3 ops s : guarded marked_ok ops init -> run ops init = Ok s -> M3 s.
+Lemma run_inv_M3 ops : forall s, Inv s -> M3 s -> exists s', run ops s = Ok s' /\ Inv s' /\ M3 s'.
 Proof.
-  apply (run_guarded marked_ok M3); [|apply Inv_init | intros H; discriminate].
-  intros o s0 s' I Hq Hg E. destruct (step_ok o s0 I) as (s1 & E1 & P). rewrite E in E1. inversion E1; subst.
-  apply P; assumption.
+  induction ops as [|o t IH]; intros s I H3; simpl.
+  - exists s. auto.
+  - destruct (step_ok o s I) as (s1 & E & P1 & P2 & _). rewrite E. apply IH; [exact P1 | apply P2; exact H3].
+Qed.
+Lemma run_M3 ops s : run ops init = Ok s -> M3 s.
+Proof.
+  intros H. destruct (run_inv_M3 ops init Inv_init) as (s' & E & _ & A); [intros H0; discriminate|].
+  rewrite E in H. inversion H; subst. exact A.
 Qed.
 Lemma run_Fresh ops s : guarded fresh_ok ops init -> run ops init = Ok s -> Fresh s.
 Proof.
@@ -136,10 +141,10 @@ Proof.
   - apply sorted_cached_of_core, C.
 Qed.
 
-Lemma view_exact_partial : forall ops s, guarded marked_ok ops init -> run ops init = Ok s ->
+Lemma view_exact : forall ops s, run ops init = Ok s ->
   Permutation (visible s) (filter (wanted s) (store s)).
 Proof.
-  intros ops s Hg H. pose proof (run_M3 ops s Hg H) as A3. apply inv_of_run in H. destruct H as [C Si F A1 A2].
+  intros ops s H. pose proof (run_M3 ops s H) as A3. apply inv_of_run in H. destruct H as [C Si F A1 A2].
   apply NoDup_Permutation; [apply NoDup_visible, (c_nodup _ C) | apply NoDup_filter, (c_store _ C)|].
   intros id. rewrite In_visible, filter_In. split.
   - intros Hin. split.
@@ -180,14 +185,6 @@ Qed.
 (* ---------- the two findings, on concrete histories ---------- *)
 Definition fl (id t z : N) (mk : bool) : flow := mkFlow id t 0 0 z [] mk.
 
-Definition hist_marked : list op := [Add (fl 0 1 0 true); ToggleMarked; Add (fl 1 2 0 false)].
-Lemma marked_refuted : exists ops s id, run ops init = Ok s
-  /\ In id (visible s) /\ In id (store s) /\ wanted s id = false.
-Proof.
-  exists hist_marked. eexists. exists 1%N. split; [vm_compute; reflexivity|].
-  vm_compute. split; [right; left; reflexivity | split; [right; left; reflexivity | reflexivity]].
-Qed.
-
 Definition hist_stale : list op :=
   [Add (fl 0 1 2 false); Add (fl 1 2 1 false); SetOrder OSize; SetOrder OTime; Update (fl 0 1 0 false); SetOrder OSize].
 Lemma stale_refuted : exists ops s a b, run ops init = Ok s /\ reversed s = false
@@ -213,18 +210,10 @@ Proof. intros H E Hg. simpl. rewrite E. auto. Qed.
 Definition hist_good : list op :=
   [Add (fl 0 1 2 true); Add (fl 1 2 1 true); SetOrder OSize; ToggleMarked; Update (fl 0 1 0 true); SetReversed true].
 Lemma good_history : exists s, run hist_good init = Ok s
-  /\ guarded marked_ok hist_good init /\ guarded fresh_ok hist_good init
+  /\ guarded fresh_ok hist_good init
   /\ visible s = [1%N; 0%N] /\ show_marked s = true /\ focus s = Some 0%N.
 Proof.
-  eexists. split; [vm_compute; reflexivity|]. split; [|split].
-  - unfold hist_good.
-    eapply guarded_cons; [intros H; vm_compute in H; discriminate | vm_compute; reflexivity |].
-    eapply guarded_cons; [intros H; vm_compute in H; discriminate | vm_compute; reflexivity |].
-    eapply guarded_cons; [exact I | vm_compute; reflexivity |].
-    eapply guarded_cons; [exact I | vm_compute; reflexivity |].
-    eapply guarded_cons; [intros _ _ _; reflexivity | vm_compute; reflexivity |].
-    eapply guarded_cons; [exact I | vm_compute; reflexivity |].
-    exact I.
+  eexists. split; [vm_compute; reflexivity|]. split.
   - unfold hist_good.
     eapply guarded_cons; [exact I | vm_compute; reflexivity |].
     eapply guarded_cons; [exact I | vm_compute; reflexivity |].
